@@ -2331,7 +2331,8 @@ class Interp:
             r = self.prims[name](self, args, kwargs, node)
             if r is not NotImplemented:
                 return r
-        h = getattr(self, 'p_' + name.replace('.', '_'), None) if '.' in name and name.startswith('sys.') else getattr(self, 'p_' + name, None)
+        h = getattr(self, 'p_' + name.replace('.', '_'), None) if '.' in name and (name.startswith('sys.') or name == 'chain.from_iterable') \
+            else getattr(self, 'p_' + name, None)
         if h is None and name in ('OrderedDict', 'dict', 'list', 'tuple', 'set', 'frozenset', 'str', 'int', 'float', 'bool') and getattr(self, 'concrete_context', False):
             return self.construct(TypeV(name), list(args), dict(kwargs), node)
         if h is None and name in ('threading.Lock', 'threading.RLock', 'Lock', 'RLock'):
@@ -2775,7 +2776,17 @@ class Interp:
         return ListV([x for x in self.iterate(a[1], n)])
 
     def p_map(self, a, k, n):
+        if len(a) > 2:
+            # map(f, xs, ys, ...): f applied to the items taken in parallel, as long as the shortest lasts
+            rows = self.p_zip(list(a[1:]), {}, n)
+            return ListV([self.call_function(a[0], list(r.items), {}, n) for r in rows.items], lazy=bool(getattr(self, 'concrete_context', False)))
         return ListV([self.call_function(a[0], [x], {}, n) for x in self.iterate(a[1], n)], lazy=bool(getattr(self, 'concrete_context', False)))
+
+    def p_chain_from_iterable(self, a, k, n):
+        out = []
+        for x in self.iterate(a[0], n):
+            out.extend(self.iterate(x, n))
+        return ListV(out, lazy=True)
 
     def p_warn(self, a, k, n):
         return NONE
